@@ -53,3 +53,19 @@ package vgirpc
 //@   at call DecodeContentEncoding assert [decodeinput] arg0 == encoded
 //@   ensures [local_status_ret12] typeof(result1) == *HTTPStatusError
 //@   ensures [local_ok_ret13] result1 == nil && result0.body == decoded
+
+// post: whatever body it hands back — compressed on the wire or not — was compared with the
+// client's decoded-size limit (the value post itself read from the client) and is within it;
+// only a 2xx status is handed back as a response; the declared and the actual encoded length
+// were compared with the encoded-size limit before anything was decoded.
+//
+//@ func (*HttpClient).post
+//@   property C21
+//@   pathvar capD int64
+//@   pathflag capRead
+//@   at load HttpClient.maxDecoded setflag capD value
+//@   at load HttpClient.maxDecoded mark capRead
+//@   ensures [local_decodedcap] result1 == nil ==> capRead && len(result0.body) <= capD && result0.body == decoded && 200 <= result0.status && result0.status < 300
+//@   pathvar capE int64
+//@   at load HttpClient.maxEncoded setflag capE value
+//@   at call DecodeContentEncoding assert [encodedcap] arg0 == encoded && len(encoded) <= capE && arg2 == capD
